@@ -196,6 +196,11 @@ class _GenerateRenderMethod:
                 if node.ismodule:
                     module_code.append(node)
 
+            def visitControlLine(s, node):
+                # the nodes inside a control structure are also members
+                # of the enclosing node list; visit them once
+                pass
+
         f = FindTopLevel()
         for n in self.node.nodes:
             n.accept_visitor(f)
